@@ -1375,6 +1375,14 @@ class Interp:
         return Const(True)
 
     def compare(self, op, l, r, node) -> Value:
+        # canonical operand order: a constant goes to the right ('0 == x' and 'x == 0' are one condition;
+        # str/int == falls back to the reflected __eq__ of an object operand, so the result is the same)
+        if isinstance(l, Const) and not isinstance(r, Const):
+            if op in ("Eq", "NotEq"):
+                l, r = r, l
+            elif op in ("Lt", "LtE", "Gt", "GtE"):
+                op = {"Lt": "Gt", "LtE": "GtE", "Gt": "Lt", "GtE": "LtE"}[op]
+                l, r = r, l
         v = self._compare(op, l, r, node)
         if isinstance(v, Term) and v.op == "cmp":
             # the same comparison of the same operand objects is the same condition
